@@ -205,3 +205,100 @@ Proof.
   exists [([[0;0;0;0;0;5;1;3;2]%N], FinEof); ([[0;1;0;0;0;5;1;3;2;18;52]%N], FinPending)].
   vm_compute. discriminate.
 Qed.
+
+(* ================================================================================================
+   Cancel-safety and compositionality (TCP)
+   ================================================================================================ *)
+Definition tcp_rd (st : pstate) (b : buf) : reader := {| r_parser := PTcp st; r_buf := b |}.
+
+(* a next_frame call abandoned while it waits + a fresh call = one uninterrupted call *)
+Theorem tcp_cancel_safe : forall st b n1 n2 fi r1 n1',
+  wf b -> st_ok st ->
+  next_frame (nf_fuel n1) (tcp_rd st b) n1 FinPending = (r1, n1', NfEnd EndPending) ->
+  next_frame (nf_fuel n2) r1 n2 fi = next_frame (nf_fuel (n1 ++ n2)) (tcp_rd st b) (n1 ++ n2) fi /\
+  n1' = [] /\ exists st1 b1, r1 = tcp_rd st1 b1 /\ wf b1 /\ st_ok st1.
+Proof.
+  intros st b n1 n2 fi r1 n1' Hwf Hst E.
+  destruct (mbap_nf_cancel_safe st b n1 n2 fi r1 n1' (nf_fuel n1) (nf_fuel n2) (nf_fuel (n1 ++ n2)) Hwf Hst
+              ltac:(unfold nf_fuel; lia) ltac:(unfold nf_fuel; lia) ltac:(unfold nf_fuel; lia) E) as [Heq Hw].
+  split; [exact Heq|].
+  pose proof (mbap_nf_app (nf_fuel n1) st b n1 [] FinPending 1 Hwf Hst ltac:(unfold nf_fuel; lia) ltac:(cbn; lia)) as Happ.
+  unfold rd, tcp_rd in *. rewrite E in Happ. destruct Happ as (Hn & _). split; [exact Hn|].
+  destruct Hw as (st1 & b1 & -> & Hwf1 & _ & Hst1 & _). exists st1, b1. repeat split; assumption.
+Qed.
+
+(* ... and for whole sessions: abandoning the waiting call at EVERY chunk boundary changes nothing *)
+Theorem tcp_cancel_safe_session : forall chunks fi,
+  run_cancel (reader_new KTcp) chunks fi = run_session KTcp false chunks fi.
+Proof.
+  intros chunks fi. unfold run_session. pose proof (sbytes_le chunks) as Hs.
+  change (reader_new KTcp) with (rd pstate PTcp Begin buf_new).
+  set (G := run_fuel (rd pstate PTcp Begin buf_new) chunks).
+  assert (HG : G = length (concat chunks) + 2) by reflexivity.
+  rewrite <- (run_reader_st_snd G).
+  rewrite (mbap_run_st_fuel_indep G (S G) Begin buf_new chunks fi wf_new I);
+    [|unfold rmeasure; cbn [buf_new b_pend app cons_need]; lia|unfold rmeasure; cbn [buf_new b_pend app cons_need]; lia].
+  rewrite run_reader_st_snd.
+  apply (mbap_run_cancel_eq chunks Begin buf_new fi (S G) wf_new I). cbn [buf_new b_pend length]. lia.
+Qed.
+
+(* --- the Spec over s1 ++ s2 --- *)
+Theorem ref_frames_app : forall s1 s2 fi,
+  ref_frames (s1 ++ s2) fi =
+  match ref_frames s1 FinPending with
+  | (fs1, EndPending) => (fs1 ++ fst (ref_frames (mbap_tail s1 ++ s2) fi), snd (ref_frames (mbap_tail s1 ++ s2) fi))
+  | x => x
+  end.
+Proof.
+  intros s1 s2 fi. unfold ref_frames. pose proof (mbap_tail_len s1) as Ht.
+  rewrite (mbap_ref_app (S (length (s1 ++ s2))) s1 s2 fi) by lia.
+  rewrite (ref_fuel (S (length (s1 ++ s2))) (S (length s1)) s1) by (rewrite ?app_length; lia).
+  rewrite (ref_fuel (S (length (s1 ++ s2))) (S (length (mbap_tail s1 ++ s2))) (mbap_tail s1 ++ s2)) by (rewrite ?app_length; lia).
+  reflexivity.
+Qed.
+
+(* at a frame boundary nothing is left over *)
+Lemma ref_tail_framed pre fs : framed pre fs -> forall F, length pre < F -> ref_tail F pre = [].
+Proof.
+  induction 1 as [|t1 t0 l1 l0 u pdu s fs Hl Hp Hfr IH]; intros F HF; [destruct F; reflexivity|].
+  destruct F as [|F]; [lia|]. cbn [app ref_tail]. change (be 0 0) with 0%N. cbn [N.eqb negb]. rewrite Hl.
+  destruct (Nat.ltb_spec 254 (S (length pdu))); [lia|]. cbn [Nat.eqb]. replace (S (length pdu) - 1) with (length pdu) by lia.
+  destruct (Nat.ltb_spec (length (pdu ++ s)) (length pdu)) as [Hlt|_]; [rewrite app_length in Hlt; lia|].
+  rewrite skipn_app_le, skipn_all by lia. cbn [app]. apply IH.
+  cbn [length app] in HF. rewrite !app_length in HF. lia.
+Qed.
+Lemma mbap_tail_framed pre fs : framed pre fs -> mbap_tail pre = [].
+Proof. intros Hfr. unfold mbap_tail. apply (ref_tail_framed pre fs Hfr). lia. Qed.
+
+Theorem ref_frames_framed_app : forall pre fs s2 fi, framed pre fs ->
+  ref_frames (pre ++ s2) fi = (fs ++ fst (ref_frames s2 fi), snd (ref_frames s2 fi)).
+Proof.
+  intros pre fs s2 fi Hfr. rewrite ref_frames_app, (ref_frames_framed pre fs FinPending Hfr). cbn [end_of].
+  now rewrite (mbap_tail_framed pre fs Hfr).
+Qed.
+
+(* --- a connection that goes on: the reader after a run that ends waiting --- *)
+Definition tcp_represents (r : reader) (t : list N) : Prop := mbap_represents r t.
+
+Theorem tcp_represents_fresh : tcp_represents (reader_new KTcp) [].
+Proof. exact mbap_represents_fresh. Qed.
+
+Theorem tcp_run_represents : forall r t n fi, tcp_represents r t ->
+  run_reader (run_fuel r n) false r n fi = lift_frames (ref_frames (t ++ sbytes n) (sfin n fi)) /\
+  snd (run_reader_st (run_fuel r n) r n fi) = lift_frames (ref_frames (t ++ sbytes n) (sfin n fi)).
+Proof.
+  intros r t n fi Hrep. pose proof (sbytes_le n).
+  assert (H1 : run_reader (run_fuel r n) false r n fi = lift_frames (ref_frames (t ++ sbytes n) (sfin n fi))).
+  { unfold ref_frames. apply (mbap_run_represents r t n fi (run_fuel r n) (S (length (t ++ sbytes n))) Hrep); unfold run_fuel; lia. }
+  split; [exact H1|]. now rewrite run_reader_st_snd.
+Qed.
+
+Theorem tcp_represents_step : forall r t n r1 l1, tcp_represents r t ->
+  run_reader_st (run_fuel r n) r n FinPending = (r1, (l1, EndPending)) ->
+  tcp_represents r1 (mbap_tail (t ++ sbytes n)) /\
+  l1 = map IFrame (fst (ref_frames (t ++ sbytes n) FinPending)) /\
+  snd (ref_frames (t ++ sbytes n) FinPending) = EndPending.
+Proof.
+  intros r t n r1 l1 Hrep E. pose proof (sbytes_le n).
+  exact (mbap_represents_step r t n (run_fuel r n) r1 l1 Hrep ltac:(unfold run_fuel; lia) E).
+Qed.
